@@ -10,9 +10,9 @@ variable {σ : Type} (R : Rd σ) (d : Doc)
 /-- with the push-based (asynchronous) list arm nothing is ever left unreachable. -/
 theorem no_leak_async_all : ∀ f : Nat,
     (∀ ty s l, decTyL R d false f ty s = .err l → l = 0) ∧
-    (∀ e n acc s l, decNL R d false f e n acc s = .err l → l = 0) ∧
-    (∀ e n acc s l, decNS R d false f e n acc s = .err l → l = 0) ∧
-    (∀ k v n acc s l, decPairsL R d false f k v n acc s = .err l → l = 0) ∧
+    (∀ e n acc t s l, decNL R d false f e n acc t s = .err l → l = 0) ∧
+    (∀ e n acc t s l, decNS R d false f e n acc t s = .err l → l = 0) ∧
+    (∀ k v n acc t s l, decPairsL R d false f k v n acc t s = .err l → l = 0) ∧
     (∀ fs slots s l, decFieldsL R d false f fs slots s = .err l → l = 0) ∧
     (∀ vs ret s l, decUnionL R d false f vs ret s = .err l → l = 0) := by
   intro f
@@ -29,7 +29,7 @@ theorem no_leak_async_all : ∀ f : Nat,
         split at h
         · split at h
           · cases h
-          · rename_i hx; cases h; exact ihN _ _ _ _ _ hx
+          · rename_i hx; cases h; exact ihN _ _ _ _ _ _ hx
           · cases h
           · cases h
         · exact ofOut_err_zero _ _ h
@@ -38,7 +38,7 @@ theorem no_leak_async_all : ∀ f : Nat,
         split at h
         · split at h
           · cases h
-          · rename_i hx; cases h; exact ihS _ _ _ _ _ hx
+          · rename_i hx; cases h; exact ihS _ _ _ _ _ _ hx
           · cases h
           · cases h
         · exact ofOut_err_zero _ _ h
@@ -47,7 +47,7 @@ theorem no_leak_async_all : ∀ f : Nat,
         split at h
         · split at h
           · cases h
-          · rename_i hx; cases h; exact ihP _ _ _ _ _ _ hx
+          · rename_i hx; cases h; exact ihP _ _ _ _ _ _ _ hx
           · cases h
           · cases h
         · exact ofOut_err_zero _ _ h
@@ -77,35 +77,40 @@ theorem no_leak_async_all : ∀ f : Nat,
         · exact ofOut_err_zero _ _ h
         · exact ihT _ _ _ h
         · cases h
+      | binary =>
+        simp only [decTyL] at h
+        split at h
+        · cases h
+        · exact ofOut_err_zero _ _ h
       | _ => simp only [decTyL] at h; exact ofOut_err_zero _ _ h
-    · intro e n acc s l h
+    · intro e n acc t s l h
       cases n with
       | zero => simp only [decNL] at h; cases h
       | succ n =>
         simp only [decNL] at h
         split at h
-        · exact ihN _ _ _ _ _ h
+        · exact ihN _ _ _ _ _ _ h
         · rename_i hx; have := ihT _ _ _ hx; simp at h; omega
         · cases h
         · cases h
-    · intro e n acc s l h
+    · intro e n acc t s l h
       cases n with
       | zero => simp only [decNS] at h; cases h
       | succ n =>
         simp only [decNS] at h
         split at h
-        · exact ihS _ _ _ _ _ h
+        · exact ihS _ _ _ _ _ _ h
         · rename_i hx; cases h; exact ihT _ _ _ hx
         · cases h
         · cases h
-    · intro k v n acc s l h
+    · intro k v n acc t s l h
       cases n with
       | zero => simp only [decPairsL] at h; cases h
       | succ n =>
         simp only [decPairsL] at h
         split at h
         · split at h
-          · exact ihP _ _ _ _ _ _ h
+          · exact ihP _ _ _ _ _ _ _ h
           · rename_i hx; cases h; exact ihT _ _ _ hx
           · cases h
           · cases h
